@@ -163,7 +163,22 @@ func (c *c01Child_) stop() {
 }
 
 // probe: a fresh connection to the echo port is served
+// probe: a fresh connection to the echo port is served (tried up to three times over about two seconds: a verdict of
+// "not served" is about the process having stopped serving, not about one slow accept on a busy machine)
 func (c *c01Child_) probe() bool {
+	for i := 0; i < 3; i++ {
+		if c.probeOnce() {
+			return true
+		}
+		if !c.alive() {
+			return false
+		}
+		time.Sleep(500 * time.Millisecond)
+	}
+	return false
+}
+
+func (c *c01Child_) probeOnce() bool {
 	conn, err := net.DialTimeout("tcp", fmt.Sprintf("127.0.0.1:%d", c01PortBase+7), time.Second)
 	if err != nil {
 		return false
@@ -363,11 +378,15 @@ func runSSHEmptyPacket(svc string) {
 	}()
 	time.Sleep(100 * time.Millisecond)
 	verdict, out := "ok", "alive"
+	served := child.alive() && child.probe()
+	if !served {
+		time.Sleep(300 * time.Millisecond) // a dying process may still have been there when asked
+	}
 	if !child.alive() {
 		out = "died:" + child.banner()
 		// its own signature: this is the finding recorded in known-findings.txt (library defect; see DESIGN 11.3a)
 		verdict = fmt.Sprintf("viol:ssh-empty-plaintext-packet-ends-process:%s: an AES-GCM packet with an empty plaintext after the key exchange (before any authentication) ended the process: %s", svc, child.banner())
-	} else if !child.probe() {
+	} else if !served && !child.probe() {
 		out = "probe-unserved"
 		verdict = fmt.Sprintf("viol:new-connections-not-served:%s: after an ssh packet with an empty plaintext a fresh connection to the echo port is not served", svc)
 		child.stop()
@@ -781,6 +800,17 @@ func genC01(tier string, seed uint64) {
 	}
 	for _, svc := range []string{"ssh-simulator", "ssh-auth"} {
 		runSSHEmptyPacket(svc)
+	}
+	// BER lengths that announce gigabytes to terabytes, outermost and nested (the libraries allocate what is announced)
+	for _, in := range [][]byte{{0x04, 0x86, 0x40, 0, 0, 0, 0, 0}, {0x04, 0x85, 0x7f, 0, 0, 0, 0}, {0x04, 0x86, 0x01, 0, 0, 0, 0, 0}, {0x30, 0x86, 0x40, 0, 0, 0, 0, 0},
+		{0x30, 0x0a, 0x04, 0x86, 0x01, 0, 0, 0, 0, 0, 0, 0}, {0x30, 0x0c, 0x02, 0x01, 0x01, 0x60, 0x85, 0x7f, 0, 0, 0, 0, 0, 0}, {0x30, 0x88, 0x7f, 0xff, 0xff, 0xff, 0xff, 0xff, 0xff, 0xff}, {0x30, 0x84, 0xff, 0xff, 0xff, 0xff}} {
+		for _, svc := range []string{"ldap", "snmp", "snmp-tcp"} {
+			for rep := 0; rep < 3; rep++ {
+				if !runProc(svc, 1+rep, "w", in) {
+					break
+				}
+			}
+		}
 	}
 	// memory while the client is idle
 	for _, c := range []struct {
